@@ -1318,8 +1318,12 @@ class AdbDevice(object):
         msg = AdbMessage(constants.WRTE, adb_info.local_id, adb_info.remote_id, filesync_info.send_buffer[:filesync_info.send_idx])
         self._io_manager.send(msg, adb_info)
 
-        # Expect an 'OKAY' in response
-        self._read_until([constants.OKAY], adb_info)
+        # Expect an 'OKAY' in response; the device may write (e.g., a ``FAIL`` status) before it acknowledges
+        while True:
+            cmd, data = self._read_until([constants.OKAY, constants.WRTE], adb_info)
+            if cmd == constants.OKAY:
+                break
+            filesync_info.recv_buffer += data
 
         # Reset the send index
         filesync_info.send_idx = 0
